@@ -50,6 +50,12 @@ PREMISES = {
         'reply serial are read whatever other header fields the bus sends '
         '(reader clauses of C03.D3/D4)')],
     'C10': [CODEC,
+            ('c18', lambda r, w, s: r == 'C18.D1' and
+             w.endswith('validateErrorName'),
+             'an exception is answered under its own error name only if '
+             'that is a valid one, org.txdbus.InvalidErrorName otherwise: '
+             'the dispatcher asks validateErrorName, which must accept '
+             'exactly the names an ErrorMessage can carry (C18.D1)'),
             ('c15', lambda r, w, s: r == 'C15.D4',
              'the dispatcher checks calls against the interface objects the '
              'exported object declares: parsing somebody else\'s XML must '
